@@ -349,7 +349,9 @@ MANIFEST = {
     "text": "Proof (refinement, induction over the edit history): C19_refines_list / C19_step -- for every start list, "
             "every history of legal edits (assignment to one position or to several at once -- slice, index list, boolean mask --, insert, append, del, pop, extend/+=, slice deletion, reverse "
             "incl. the pairwise-swap loop C19_reverse_loop) over formulas of any widths and every assignment: length, "
-            "every read-back and every query equal those of the plain list. Tied to the code by applying random "
+            "every read-back and every query equal those of the plain list; C19_simple_flag_sound -- the container's 'simple' flag "
+            "(read by the neighbor fast path) implies that the rows are the default formulas after ANY history, C19_refuted_F19 for "
+            "the pinned container. Tied to the code by applying random "
             "histories to a real Provenance, to a Python list and to the model, comparing after EVERY step inside Coq.",
     "note": "Trusted: Coq kernel + vm_compute; harness; MutableSequence mix-ins, np.insert/np.delete/np.pad as "
             "modelled. Slice assignment is outside the modelled contract.",
